@@ -136,7 +136,7 @@ ADDED = {
     "C03": "Plus 64 / 3 000 histories on targets saturated with schema-permitted siblings (vlib/instgen.py, profile sat), a sweep assigning every in-domain value of every C09-table row and validating the part, and the documented rejections of that table re-validated. The fill operation reads colours after switching kind and assigns an unusable colour. fit_text (explicit font file) among the text-frame operations when a DejaVu font is installed. Positions given as floats (what Length arithmetic yields) to every add_* call. begin_connect / end_connect with an index no unsignedInt holds (a documented rejection). A directed unit calls every shape-adding entry point (slide and group collections) with float geometry of three kinds and validates what it wrote.",
     "C04": "A seventh prior state holds the assigned string in one run (reads alike, built differently); a third of the assignments go through a proxy object that was assigned through before; non-NFC text among the tokens. The kept proxy is read before it is assigned through. Prior states with an equation (mc:AlternateContent inside a:p) and with a comment inside a:t; the independent reader takes string values and counts the text of children of a:p it has no name for.",
     "C05": "Two links to near-variant addresses on one slide, strings of exactly the documented maximum length, non-NFC / non-NFKC strings, the same image bytes under a second file name (open finding). Strings spelling enumeration member names / values or Python constants. Two links sharing an address, one then cleared or re-pointed. Number format set on the categories before any category exists. The string in the extension position of a movie's file name; every saved package is read as a URI-conforming consumer would (member names against the OPC part-name grammar, Targets resolved as URI references: '#' and '?' are syntax).",
-    "C06": "Unit families: every numbered part family (slide, notes slide, chart + workbook, image, media) x 9 irregular numberings of the members a loaded deck has x three further additions; manufactured start decks with dense-permuted / shifted / holed slide names and image indices shared across extensions; the repository's 2 700 tests run under the monitors. Every numeric @id of a part is counted (OLE fallback pictures); every r:id / r:embed / r:link must designate a relationship of the kind the attribute asks for; decks with a blank hyperlink Target. Ids are compared as numbers; id state 'padded' (zero-padded ids). A new relationship id that XML present before the operation already carried. Injected ids include the largest xsd:unsignedInt and the spellings ' 7' / '+7'; the monitors compare ids as the numbers they denote.",
+    "C06": "Unit families: every numbered part family (slide, notes slide, chart + workbook, image, media) x 9 irregular numberings of the members a loaded deck has x three further additions; manufactured start decks with dense-permuted / shifted / holed slide names and image indices shared across extensions; the repository's 2 700 tests run under the monitors. Every numeric @id of a part is counted (OLE fallback pictures); every r:id / r:embed / r:link must designate a relationship of the kind the attribute asks for; decks with a blank hyperlink Target. Ids are compared as numbers; id state 'padded' (zero-padded ids). A new relationship id that XML present before the operation already carried. Injected ids include the largest xsd:unsignedInt and the spellings ' 7' / '+7'; the monitors compare ids as the numbers they denote. A directed unit: a slide with one of three image relationships voided in the input, under five numberings, then four kinds of further relationship - no id handed out may be one the XML still mentions.",
     "C07": "Corpus charts are grown by two series and shrunk to one series in alternate rounds (authored c:idx orders, multi-plot charts). REUSE steps: one chart-data object extended and used again; reads through plot proxies kept across replace_data.",
     "C08": "The same chart-data object re-used after it was extended (replace_data and a second add_chart); corpus charts shrunk to one series. Time-zone-aware datetime categories.",
     "C09": "Driver toggles: a kept ancestor whose content is switched off and on (has_data_labels / has_title / has_legend / gridlines; fill.background() for colours) and the child re-accessed from it; None and inf/nan are out of domain for non-boolean properties; identical assignments repeated in sequences; a legend dragged in PowerPoint (edge-mode manual layout) as a fixture. Brightness on a colour that holds its luminance transforms twice. Toggles: the switch re-assigned the value it has must leave the child's properties alone. Rows for the marker and the line of a single point. Plot switches on XY / bubble / line / pie plots; gradient_angle = None; a presentation without p:sldSz (open finding). A getter that fails with an internal error on a corpus object of the row's kind is a violation (it was a skip).",
